@@ -38,11 +38,14 @@ Seen(rc) == [status |-> rc.status, logs |-> rc.logs, created |-> rc.created]
 -----------------------------------------------------------------------------
 (* The projection of a reference state S = [chain, cur, world, pool]        *)
 
-HeightOf(S) == Len(S.chain) - 1
+HeightOf(S) == Base + Len(S.chain) - 1
 
 AllTxsOf(S) ==
-  UNION {{[b |-> i - 1, i |-> j - 1, bh |-> S.chain[i].hash, tx |-> S.chain[i].txs[j]] : j \in 1..Len(S.chain[i].txs)} : i \in 1..Len(S.chain)}
-    \cup {[b |-> Len(S.chain), i |-> j - 1, bh |-> S.cur.hash, tx |-> S.cur.txs[j]] : j \in 1..Len(S.cur.txs)}
+  UNION {{[b |-> Base + i - 1, i |-> j - 1, bh |-> S.chain[i].hash, tx |-> S.chain[i].txs[j]] : j \in 1..Len(S.chain[i].txs)} : i \in 1..Len(S.chain)}
+    \cup {[b |-> Base + Len(S.chain), i |-> j - 1, bh |-> S.cur.hash, tx |-> S.cur.txs[j]] : j \in 1..Len(S.cur.txs)}
+
+(* the implicit blocks the projection can still see (it looks at the last 14 heights and remembers their hashes) *)
+ImplicitSeen == (IF Base > 40 THEN Base - 40 ELSE 0)..(Base - 1)
 
 LaterT(x, y) == x.b > y.b \/ (x.b = y.b /\ x.i > y.i)
 LatestOf(c) == CHOOSE x \in c : \A y \in c : x = y \/ LaterT(x, y)
@@ -66,16 +69,16 @@ ObsOK(o, S) ==
        \A i \in DOMAIN o.blocks :
          LET b == o.blocks[i] IN
          IF b.h <= H
-         THEN /\ b.hash = S.chain[b.h + 1].hash
-              /\ b.parent = (IF b.h = 0 THEN "zero" ELSE S.chain[b.h].hash)
-              /\ b.ts = S.chain[b.h + 1].ts
-              /\ b.txs = [j \in 1..Len(S.chain[b.h + 1].txs) |-> S.chain[b.h + 1].txs[j].id]
+         THEN /\ b.hash = BlkOf(S.chain, b.h).hash
+              /\ b.parent = (IF b.h = 0 THEN "zero" ELSE BlkOf(S.chain, b.h - 1).hash)
+              /\ b.ts = BlkOf(S.chain, b.h).ts
+              /\ b.txs = [j \in 1..Len(BlkOf(S.chain, b.h).txs) |-> BlkOf(S.chain, b.h).txs[j].id]
          ELSE b.hash = NULL)
   /\ Chk("blocks-cover", \A h \in o.lo..H : \E i \in DOMAIN o.blocks : o.blocks[i].h = h)
   /\ Chk("byhash",
        \A i \in DOMAIN o.byhash :
          LET x == o.byhash[i]
-             hs == {h \in 0..H : S.chain[h + 1].hash = x.hash}
+             hs == {h \in (Base..H) \cup ImplicitSeen : BlkOf(S.chain, h).hash = x.hash}
          IN  IF hs = {} THEN x.h = -1 ELSE x.h \in hs /\ Cardinality(hs) = 1)
   /\ Chk("txs",
        \A i \in DOMAIN o.txs :
@@ -121,7 +124,7 @@ ObsOK(o, S) ==
   /\ Chk("logs",
        \A i \in DOMAIN o.logs :
          LET x == o.logs[i] IN
-         x.h <= H => Item("logs", x, x.logs = FlatLogs(S.chain[x.h + 1].txs, 1, 0), FlatLogs(S.chain[x.h + 1].txs, 1, 0)))
+         x.h <= H => Item("logs", x, x.logs = FlatLogs(BlkOf(S.chain, x.h).txs, 1, 0), FlatLogs(BlkOf(S.chain, x.h).txs, 1, 0)))
   /\ Chk("ledger-bal",
        o.boundary => \A i \in DOMAIN o.ledger.bals :
          LET x == o.ledger.bals[i] IN Item("bal", x, x.v = Bal(w, x.t, x.a), Bal(w, x.t, x.a)))
@@ -137,16 +140,18 @@ Post == [chain |-> chain', cur |-> cur', world |-> world', pool |-> pool']
 
 InitVals ==
   /\ chain' = <<>> /\ cur' = NoCur /\ world' = EmptyWorld /\ pool' = <<>> /\ snaps' = <<>>
-  /\ maxEver' = -1
+  /\ maxEver' = Base - 1
   /\ dur' = [chain |-> <<>>, world |-> EmptyWorld, pool |-> <<>>, snaps |-> <<>>]
 
+(* with Base > 0 the harness has mined and committed Base empty blocks right after opening the directory *)
 TrReset == IsEv("Reset") /\ InitVals /\ pred' = NoPred /\ torn' = NotTorn
+           /\ Chk("base", (IF "base" \in DOMAIN E THEN E.base ELSE 0) = Base)
 
 (* C04: the process dies before persistent write `at` of the operation.                            *)
 (*  finalise: the block is lost with everything uncommitted (like a restart)                       *)
 (*  commit  : heights committed before stay recoverable: cap = durable height                      *)
 (*  reorg(n): cap = min(durable height, n)                                                         *)
-DurHeight == Len(dur.chain) - 1
+DurHeight == Base + Len(dur.chain) - 1
 TrCrash ==
   /\ IsEv("Crash")
   /\ IF E.during = "finalise"
@@ -160,12 +165,12 @@ TrReopen == IsEv("Reopen") /\ Chk("reopen", E.res = "ok") /\ UNCHANGED <<vars, t
 (* the recovering reorg: to a height committed before the crash, not above the interrupted reorg's target, inside the window *)
 TrRecover ==
   /\ IsEv("Reorg") /\ torn.on
-  /\ Chk("recover-target-admissible", E.n >= 0 /\ E.n <= torn.cap /\ maxEver <= E.n + W)    \* the harness only asks admissible targets
+  /\ Chk("recover-target-admissible", E.n >= Base /\ E.n <= torn.cap /\ maxEver <= E.n + W)    \* the harness only asks admissible targets
   /\ Chk("recover-accepted", E.res = "ok")
-  /\ chain' = SubSeq(chain, 1, E.n + 1)
-  /\ snaps' = SubSeq(snaps, 1, E.n + 1)
-  /\ world' = snaps[E.n + 1].world
-  /\ pool' = snaps[E.n + 1].pool
+  /\ chain' = SubSeq(chain, 1, E.n - Base + 1)
+  /\ snaps' = SubSeq(snaps, 1, E.n - Base + 1)
+  /\ world' = snaps[E.n - Base + 1].world
+  /\ pool' = snaps[E.n - Base + 1].pool
   /\ cur' = NoCur
   /\ dur' = [chain |-> chain', world |-> world', pool |-> pool', snaps |-> snaps']
   /\ UNCHANGED maxEver
@@ -210,7 +215,7 @@ TrInitialise ==
   /\ IsEv("Initialise")
   /\ IF E.res \in {"ok", "enverr"}
      THEN IF E.height <= Height
-          THEN Chk("init-again", chain[E.height + 1].hash = Resolve(E.hash, E.height)) /\ UNCHANGED vars
+          THEN Chk("init-again", Blk(E.height).hash = Resolve(E.hash, E.height)) /\ UNCHANGED vars
           ELSE /\ Chk("init-height", E.height = NextH /\ cur.n = 0)
                /\ Chk("init-hash", Resolve(E.hash, E.height) \notin Hashes)
                /\ Chk("init-rc", E.rc.id = E.id /\ E.rc.status = 1 /\ E.rc.created = "ctrl" /\ E.rc.from = "idx")
@@ -285,7 +290,7 @@ TrReorg ==
      THEN IF ReorgAcceptable(E.n) THEN ReorgOk(E.n)
           \* outside the window: must be refused (a reorg to the current height of a database that has
           \* nothing above it is harmless either way)
-          ELSE Chk("reorg-accepted", cur.n = 0 /\ E.n = ApiHeight /\ pool = (IF Height < 0 THEN pool ELSE snaps[Height + 1].pool)) /\ UNCHANGED vars
+          ELSE Chk("reorg-accepted", cur.n = 0 /\ E.n = ApiHeight /\ pool = (IF Len(chain) = 0 THEN pool ELSE snaps[Len(chain)].pool)) /\ UNCHANGED vars
      ELSE /\ Chk("res", E.res = "err")
           /\ Chk("reorg-refused", ~ReorgAcceptable(E.n))      \* C01: accepted whenever inside the window
           /\ Reject
@@ -303,7 +308,7 @@ LogMatch(f, lg) ==
       ELSE IF "maybe" \in ms THEN "maybe" ELSE "yes"
 
 RangeLogs(lo, hi) ==
-  UNION {LET fl == FlatLogs(chain[b + 1].txs, 1, 0)
+  UNION {LET fl == FlatLogs(Blk(b).txs, 1, 0)
          IN  {[b |-> b, li |-> fl[k].li, id |-> fl[k].id, a |-> fl[k].a, t |-> fl[k].t] : k \in DOMAIN fl}
          : b \in {x \in lo..hi : x <= Height /\ x >= 0}}
 
